@@ -17,6 +17,7 @@ MODELS = {
     "cached_int": ({"cached_int": True}, "bg"),
     "cached_amp": ({"cached_amp": True}, "bg"),
     "simple": ({"model": "simple"}, "bg"),
+    "simple_cfit": ({"model": "simple_cfit", "bg_frac": 0.23}, "cfit"),
 }
 
 
@@ -91,7 +92,7 @@ def reference_nll(model, amp, data, phsp, bg, w_bkg, bg_frac=None, gauss=None, p
     elif model == "extended":
         val = -alpha * np.sum(w_all * np.log(f_all)) + alpha * sw * I
         min_arg = np.min(f_all)
-    elif model in ("cfit", "cfit_cached", "cfit_extended"):
+    elif model in ("cfit", "cfit_cached", "cfit_extended", "simple_cfit"):
         eps_d, b_d = np.asarray(data["eff_value"]), np.asarray(data["bg_value"])
         eps_mc, b_mc = np.asarray(phsp["eff_value"]), np.asarray(phsp["bg_value"])
         I_sig = np.sum(v * eps_mc * f_mc) / np.sum(v)
